@@ -89,9 +89,12 @@ void update(scalar_stats_t& stats, const tensor2d_cmap_t& values)
             const auto value = values(sample, column);
             if (std::isfinite(value))
             {
+                // NB: numerically stable (Welford) update of the mean and of the sum of squared deviations,
+                //     the sum of squares cancels catastrophically for almost constant columns!
                 stats.m_samples(column) += 1;
-                stats.m_mean(column) += value;
-                stats.m_stdev(column) += value * value;
+                const auto delta = value - stats.m_mean(column);
+                stats.m_mean(column) += delta / static_cast<scalar_t>(stats.m_samples(column));
+                stats.m_stdev(column) += delta * (value - stats.m_mean(column));
                 stats.m_min(column) = std::min(stats.m_min(column), value);
                 stats.m_max(column) = std::max(stats.m_max(column), value);
             }
@@ -108,8 +111,7 @@ void done(scalar_stats_t& stats, const tensor_mem_t<uint8_t, 1>& enable_scaling 
         if (const auto N = stats.m_samples(i); N > 1)
         {
             const auto dN    = static_cast<scalar_t>(N);
-            stats.m_stdev(i) = std::sqrt((stats.m_stdev(i) - stats.m_mean(i) * stats.m_mean(i) / dN) / (dN - 1.0));
-            stats.m_mean(i) /= dN;
+            stats.m_stdev(i) = std::sqrt(stats.m_stdev(i) / (dN - 1.0));
             stats.m_div_range(i) = 1.0 / std::max(stats.m_max(i) - stats.m_min(i), epsilon);
             stats.m_div_stdev(i) = 1.0 / std::max(stats.m_stdev(i), epsilon);
             stats.m_mul_range(i) = std::max(stats.m_max(i) - stats.m_min(i), epsilon);
